@@ -387,12 +387,12 @@ var w2Sizes = []int{16, 17, 64, 4096, 65536}
 func genStack(r *Rng) string {
 	switch r.Intn(3) {
 	case 0:
-		if r.Split("rich-destination").Chance(1, 4) {
-			return pick(r.Split("rich-destination-kind"), []string{"W1f", "W1s", "W1b"})
+		if g := NewRng(r.Next()); g.Chance(1, 4) {
+			return pick(g, []string{"W1f", "W1s", "W1b"})
 		}
 		return "W1"
 	case 1:
-		if r.Split("pending-prefix").Chance(1, 4) {
+		if g := NewRng(r.Next()); g.Chance(1, 4) {
 			return fmt.Sprintf("W2p:%d", pick(r, w2Sizes))
 		}
 		return fmt.Sprintf("W2:%d", pick(r, w2Sizes))
